@@ -90,6 +90,43 @@ pub fn run(ctx: &Ctx) -> Report {
     });
     rep.merge(r);
 
+    // ---- (a') a client that asks for TLS from a shim that offers none (in the build without the
+    //      library's tls feature that refusal is code of its own): whatever the server sends after
+    //      its greeting continues the id of the client's packet. (The unchanged library refuses
+    //      without a word; the clause is there for a library that says why.)
+    let n = if ctx.miri { 4 } else { ctx.n(400, 4000) };
+    let r = par_cases(ctx, "C05", "tls-requested-not-offered", n, |rng, i, rep| {
+        let (case, label) = ssl_refusal_case(rng, i);
+        let obs = run_case(&case);
+        rep.evaluations += 1;
+        rep.counters.class(label.clone());
+        let d = || ssl_refusal_detail(&case, &obs, &label);
+        if harness_panic(&obs, rep) {
+            return;
+        }
+        let out = obs.output();
+        let (pkts, rest) = wire::packets_prefix(&out);
+        if rest != out.len() || pkts.is_empty() {
+            rep.counters.inc("skipped_bad_framing");
+            return;
+        }
+        if pkts.len() == 1 {
+            rep.counters.inc("tls_refusals_without_a_reply");
+            return;
+        }
+        let req = obs.ends.first().map(|e| e.1).unwrap_or(case.hs_seq);
+        for (k, p) in pkts[1..].iter().enumerate() {
+            rep.counters.inc("outbound_packets_checked");
+            let want = req.wrapping_add(1 + k as u8);
+            if p.seq != want {
+                rep.violations.push(viol("C05", "C05 wrong-sequence-id".into(), format!("packet #{} after the greeting (reply to a TLS request under id {}) carries id {}, expected {}", k, req, p.seq, want), d()));
+                return;
+            }
+        }
+        rep.counters.inc("tls_refusals_with_a_reply_checked");
+    });
+    rep.merge(r);
+
     // ---- (b) long responses: the counter must wrap (at least twice) without stalling or repeating
     let n = if ctx.miri { 1 } else { ctx.n(24, 200) };
     let r = par_cases(ctx, "C05", "long", n, |rng, i, rep| {
